@@ -109,6 +109,33 @@ pub struct Delivery {
 
 /// Render the script for a transport. Separators are drawn from `sep_seed`; a seed of 0 gives
 /// newlines only and no blank commands.
+/// Rejected lines may carry bytes that are not valid UTF-8: inside a `String` they travel as
+/// private-use characters U+E080..U+E0FF. On a byte transport (stdin) they become the raw byte,
+/// elsewhere the replacement character a lossy decoder would produce.
+pub fn raw_byte_marker(byte: u8) -> char {
+    char::from_u32(0xE000 + byte as u32).unwrap()
+}
+
+fn to_wire_bytes(text: &str) -> Vec<u8> {
+    let mut out = Vec::with_capacity(text.len());
+    for c in text.chars() {
+        let code = c as u32;
+        if (0xE080..=0xE0FF).contains(&code) {
+            out.push((code - 0xE000) as u8);
+        } else {
+            let mut buf = [0u8; 4];
+            out.extend_from_slice(c.encode_utf8(&mut buf).as_bytes());
+        }
+    }
+    out
+}
+
+fn to_text(text: &str) -> String {
+    text.chars()
+        .map(|c| if (0xE080..=0xE0FF).contains(&(c as u32)) { '\u{FFFD}' } else { c })
+        .collect()
+}
+
 pub fn deliver(script: &[Item], transport: &Transport, sep_seed: u64) -> Delivery {
     let mut rng = Rng::new(sep_seed);
     let lines: Vec<String> = script.iter().map(|i| i.render()).collect();
@@ -136,32 +163,39 @@ pub fn deliver(script: &[Item], transport: &Transport, sep_seed: u64) -> Deliver
     let trailing = sep_seed != 0 && rng.coin();
     match transport {
         Transport::Arg => Delivery {
-            arg: Some(join(0, n, trailing)),
+            arg: Some(to_text(&join(0, n, trailing))),
             stdin: Vec::new(),
             terminal: None,
         },
         Transport::Stdin => Delivery {
             arg: None,
-            stdin: join(0, n, trailing || n == 0).into_bytes(),
+            stdin: to_wire_bytes(&join(0, n, trailing || n == 0)),
             terminal: None,
         },
         Transport::Split(k) => {
             let k = (*k).min(n);
             Delivery {
-                arg: Some(join(0, k, rng.coin())),
-                stdin: join(k, n, trailing).into_bytes(),
+                arg: Some(to_text(&join(0, k, rng.coin()))),
+                stdin: to_wire_bytes(&join(k, n, trailing)),
                 terminal: None,
             }
         }
         Transport::Terminal => {
             let mut keys = Vec::new();
             for i in 0..n {
-                for ch in lines[i].chars() {
+                for ch in to_text(&lines[i]).chars() {
                     keys.push(Key2::Char(ch));
                 }
                 if seps[i] == ';' && i + 1 < n {
                     keys.push(Key2::Char(';'));
+                    // A line may also end with its separator
+                    if sep_seed != 0 && rng.chance(1, 4) {
+                        keys.push(Key2::Enter);
+                    }
                 } else {
+                    if sep_seed != 0 && rng.chance(1, 6) {
+                        keys.push(Key2::Char(';'));
+                    }
                     keys.push(Key2::Enter);
                 }
             }
@@ -488,6 +522,20 @@ fn candidate_policies(cmd: &Cmd, dbg: &Dbg) -> Vec<(Policy, &'static str)> {
             ));
         }
         Cmd::Eval(e) => {
+            if let EvalKind::JumpLabel { label } = &e.kind {
+                if let Some((_, addr)) = dbg.labels.iter().find(|(l, _)| l == label) {
+                    let off = *addr as i64 - dbg.vm.pc as i64;
+                    if !(-1000..=1000).contains(&off) {
+                        out.push((
+                            Policy {
+                                eval_far_label_refused: true,
+                                ..Policy::STRICT
+                            },
+                            "adopted:eval_far_label_refused",
+                        ));
+                    }
+                }
+            }
             if let EvalKind::LabelOp { label, .. } = &e.kind {
                 if let Some((_, addr)) = dbg.labels.iter().find(|(l, _)| l == label) {
                     if dbg.eval_label_is_far(*addr) {
@@ -923,6 +971,13 @@ pub fn check_session(cap: &Capture, scn: &DebugScenario, report: &mut Report) ->
         for (policy, tag) in candidates {
             let mut d = before.clone();
             let o = d.apply(&item.cmd, policy);
+            // The link value written by an evaluated JSR/JSRR is left unspecified: take the real one
+            if let (Cmd::Eval(e), Some(p)) = (&item.cmd, &next) {
+                if matches!(e.kind, EvalKind::JumpLabel { .. } | EvalKind::JumpReg { .. }) && !o.refused {
+                    d.vm.reg[7] = p.regs.reg[7];
+                    report.hit("adopted:eval_link_value");
+                }
+            }
             if strict.is_none() {
                 strict = Some((d.clone(), o.clone()));
             }
@@ -1453,6 +1508,8 @@ fn diagnose(
                     op,
                     if before.vm.pc == before.orig() { "pc=origin" } else { "pc!=origin" }
                 ),
+                EvalKind::JumpLabel { .. } => "jsr-label".to_string(),
+                EvalKind::JumpReg { .. } => "jsrr-reg".to_string(),
                 EvalKind::Refused => "refused-form".to_string(),
             };
             let effect = if unchanged(real, before) && !outcome.refused { "no-effect" } else if outcome.refused { "took-effect" } else { what };
